@@ -8,11 +8,12 @@ import tempfile
 import numpy as np
 import yaml
 
-from ..core import fb, fbs, unfb, close, allclose, fingerprint
+from ..core import fb, fbs, unfb, close, allclose, fingerprint, safe_oracle
 from .. import hopcommon as hc
 from . import c01
 
 
+@safe_oracle
 def oracle_hop_rule(args):
     """accepted iff KE along the direction exceeds the gap (60-digit arithmetic; ties inside 1e-12 not judged);
     the momentum change is parallel to the direction and uses the smaller-magnitude root; events logged once"""
@@ -66,6 +67,7 @@ def _events_of(trace):
     return [e for e in evs if e.get("event") == "hop"], [e for e in evs if e.get("event") == "frustrated_hop"]
 
 
+@safe_oracle
 def oracle_run_events(args):
     """with every step logged: each change of active state between consecutive snapshots <-> exactly one hop event
     (time of the earlier snapshot, from/to the two states); each rejection <-> exactly one frustrated_hop event"""
@@ -153,6 +155,11 @@ def run(ctx):
     for i, (c, o) in enumerate(zip(cases, outs)):
         cls = hc.CLASSES[i % 4]
         m = hc.parse_model(c, o)
+        ok, obs, req, text = oracle_hop_rule({"case": c, "cls": cls})
+        if "exception" in obs:
+            ctx.case(None)
+            ctx.oracle_fail("hop-rule:" + cls, "hop_rule", {"case": c, "cls": cls}, obs, req, text)
+            continue
         r = hc.impl_hop(c, cls)
         want, marg = hc.margin(c)
         dec = int(math.floor(math.log10(abs(c["delta"])))) if c["delta"] else 0
@@ -178,7 +185,6 @@ def run(ctx):
                 rt = 1e-6 if near_double else 1e-9
                 if not (close(dp, m["s"], max(abs(m["s"]), 1e-300), rtol=rt) or (tie_roots and close(-dp, m["s"], abs(m["s"])))):
                     ctx.corr_mismatch("hop.root", c, "impl scale %r, model root %r (other %r)" % (dp, m["s"], m["sbig"]))
-        ok, obs, req, text = oracle_hop_rule({"case": c, "cls": cls})
         if not ok:
             ctx.oracle_fail("hop-rule:" + cls, "hop_rule", {"case": c, "cls": cls}, obs, req, text)
 
